@@ -47,7 +47,7 @@ import (
 
 // ---------------------------------------------------------------- alphabet
 
-const maxKeys = 8
+const maxKeys = 17 // largest universe: a full 16-way branch plus the key that ends at the branch
 
 func rep(b byte, n int) []byte { return bytes.Repeat([]byte{b}, n) }
 
@@ -191,6 +191,9 @@ type refCache struct {
 }
 
 func newRefCache(keys [][]byte) *refCache {
+	if len(keys) > 8 {
+		return &refCache{keys: keys} // map only
+	}
 	n := 1
 	for range keys {
 		n *= nBase
@@ -201,7 +204,7 @@ func newRefCache(keys [][]byte) *refCache {
 func (rc *refCache) get(ct content) *refInfo {
 	idx := 0
 	for k := len(rc.keys) - 1; k >= 0; k-- {
-		if ct[k] >= nBase {
+		if rc.tab == nil || ct[k] >= nBase {
 			idx = -1
 			break
 		}
@@ -919,18 +922,11 @@ func run(c *fw.Ctx) {
 	rcs := map[*alphabet]*refCache{}
 	var bounds []string
 	capped := false
-	for _, ph := range phases(c.Thorough()) {
-		rc := rcs[ph.a]
-		if rc == nil {
-			rc = newRefCache(ph.a.keys)
-			rcs[ph.a] = rc
-		}
-		done := bfs(c, ph, rc, vr, ngo)
-		bounds = append(bounds, fmt.Sprintf("%s: %d ops, seed length %d, depth %d of %d complete", ph.name, len(ph.a.ops), len(ph.seed), done, ph.depth))
-		if done < ph.depth {
-			capped = true
-			break
-		}
+	// the cheap targeted families first (seconds), then the BFS phases (the bulk)
+	{
+		n, cfgs, ok := nibbleCoverage(c, vr, ngo, rcs)
+		bounds = append(bounds, fmt.Sprintf("nibble-coverage: %d universes, %d histories, complete=%v", cfgs, n, ok))
+		capped = !ok
 	}
 	if !capped {
 		for _, pp := range pairPhases(c.Thorough()) {
@@ -939,6 +935,21 @@ func run(c *fw.Ctx) {
 			n, ok := overwritePairs(c, pp, rc, vr, ngo)
 			bounds = append(bounds, fmt.Sprintf("%s: %d values, %d histories, complete=%v", pp.name, len(relVals), n, ok))
 			if !ok {
+				capped = true
+				break
+			}
+		}
+	}
+	if !capped {
+		for _, ph := range phases(c.Thorough()) {
+			rc := rcs[ph.a]
+			if rc == nil {
+				rc = newRefCache(ph.a.keys)
+				rcs[ph.a] = rc
+			}
+			done := bfs(c, ph, rc, vr, ngo)
+			bounds = append(bounds, fmt.Sprintf("%s: %d ops, seed length %d, depth %d of %d complete", ph.name, len(ph.a.ops), len(ph.seed), done, ph.depth))
+			if done < ph.depth {
 				break
 			}
 		}
@@ -1104,6 +1115,300 @@ func overwritePairs(c *fw.Ctx, pp pairPhase, rc *refCache, vr *violRec, ngo int)
 		return nHist, false
 	}
 	return nHist, true
+}
+
+// ---------------------------------------------------------------- nibble coverage
+//
+// The key alphabet made relational: for a branch at nibble position 0 (root branch),
+// 1, 2 (after a 2-nibble extension) and 60 (after a long extension) a family of keys
+// that differ exactly in the nibble at that position - all 16 nibbles, and the sparse
+// sets {0,f}, {7,8}, {e,f}, {0,1,f} - with 1 B values (children embedded in the branch)
+// or 40 B values (hashed children), with and without the key that ends at the branch
+// (value slot 16; only possible at even positions).  Histories: insert all (ascending
+// or descending), a checkpoint {none, hash, commit to memory x1/x2, commit to disk
+// x1/x2, commit to disk + reopen through a fresh NodeDatabase}, then
+//   (single)     for every key: delete it / overwrite it with the other value, then a
+//                checkpoint {none, commit to memory, commit to disk + reopen};
+//   (cumulative) delete / overwrite the keys one after the other (ascending and
+//                descending) with that checkpoint after every step - every prefix of
+//                such a sequence is a history of its own.
+// After each history the common observers read every key of the universe, iterate,
+// and compare the root with the reference; after a reopen also reopen-vs-fresh.
+
+type nibbleCfg struct {
+	name string
+	keys [][]byte
+	vals []int // value index written for key i
+}
+
+func nibbleConfigs(thorough bool) []nibbleCfg {
+	long := rep(0x9c, 30)
+	type pos struct {
+		name   string
+		prefix []byte // key = prefix + one byte holding the varying nibble
+		high   bool   // the varying nibble is the high nibble of that byte
+		branch bool   // a key can end at the branch (= prefix)
+	}
+	poss := []pos{
+		{"pos0", nil, true, true},
+		{"pos1", nil, false, false},
+		{"pos2", []byte{0x12}, true, true},
+		{"pos60", long, true, true},
+	}
+	if thorough {
+		poss = append(poss, pos{"pos61", long, false, false}, pos{"pos3", []byte{0x12}, false, false})
+	}
+	sets := []struct {
+		name string
+		nib  []int
+	}{
+		{"all16", []int{0, 1, 2, 3, 4, 5, 6, 7, 8, 9, 10, 11, 12, 13, 14, 15}},
+		{"0f", []int{0, 15}}, {"78", []int{7, 8}}, {"ef", []int{14, 15}}, {"01f", []int{0, 1, 15}},
+	}
+	valModes := []struct {
+		name string
+		v    [2]int
+	}{{"1B", [2]int{1, 1}}, {"40B", [2]int{5, 5}}}
+	if thorough {
+		valModes = append(valModes, struct {
+			name string
+			v    [2]int
+		}{"mixed", [2]int{1, 5}})
+	}
+	var out []nibbleCfg
+	for _, p := range poss {
+		for _, st := range sets {
+			for _, vm := range valModes {
+				for _, withBranch := range []bool{false, true} {
+					if withBranch && !p.branch {
+						continue
+					}
+					// sameTail: the keys differ in nothing but that nibble, so equal values give
+					// identical (shared, content-addressed) children; otherwise the rest of the
+					// key differs too and every child is a node of its own.
+					for _, sameTail := range []bool{true, false} {
+						cfg := nibbleCfg{name: fmt.Sprintf("%s/%s/%s/branchkey=%v/sametail=%v", p.name, st.name, vm.name, withBranch, sameTail)}
+						if withBranch {
+							cfg.keys = append(cfg.keys, cp(p.prefix))
+							cfg.vals = append(cfg.vals, vm.v[1])
+						}
+						for i, x := range st.nib {
+							var tail []byte
+							switch {
+							case p.high && sameTail:
+								tail = []byte{byte(x<<4 | 0x3)}
+							case p.high:
+								tail = []byte{byte(x<<4 | x)}
+							case sameTail:
+								tail = []byte{byte(0x50 | x)}
+							default:
+								tail = []byte{byte(0x50 | x), byte(x * 17)}
+							}
+							cfg.keys = append(cfg.keys, append(cp(p.prefix), tail...))
+							cfg.vals = append(cfg.vals, vm.v[i%2])
+						}
+						out = append(out, cfg)
+					}
+				}
+			}
+		}
+	}
+	return out
+}
+
+type nibJob struct {
+	a    *alphabet
+	rc   *refCache
+	hist []byte
+}
+
+func nibbleJobs(cfg nibbleCfg) (*alphabet, *refCache, [][]byte) {
+	a := newAlphabet(cfg.keys, []int{0, 1, 5})
+	rc := newRefCache(cfg.keys)
+	kinds := func(ks ...opKind) []byte {
+		var h []byte
+		for _, kd := range ks {
+			h = append(h, a.find(op{Kind: kd}))
+		}
+		return h
+	}
+	cp1 := [][]byte{nil, kinds(opHash), kinds(opCommitMem), kinds(opCommitMem, opCommitMem), kinds(opCommitDisk),
+		kinds(opCommitDisk, opCommitDisk), kinds(opCommitDisk, opReopen)}
+	cp2 := [][]byte{nil, kinds(opCommitMem), kinds(opCommitDisk, opReopen)}
+	n := len(cfg.keys)
+	other := func(k int) int {
+		if cfg.vals[k] == 1 {
+			return 5
+		}
+		return 1
+	}
+	mods := func(k int) []byte {
+		return []byte{a.find(op{opDelete, k, 0}), a.find(op{opUpdate, k, other(k)})}
+	}
+	seen := map[string]bool{}
+	var hists [][]byte
+	emit := func(h []byte) {
+		if !seen[string(h)] {
+			seen[string(h)] = true
+			hists = append(hists, cp(h))
+		}
+	}
+	for _, desc := range []bool{false, true} {
+		order := make([]int, n)
+		for i := range order {
+			order[i] = i
+			if desc {
+				order[i] = n - 1 - i
+			}
+		}
+		var ins []byte
+		for _, k := range order {
+			ins = append(ins, a.find(op{opUpdate, k, cfg.vals[k]}))
+			emit(ins) // every prefix of the build-up
+		}
+		for _, c1 := range cp1 {
+			base := append(cp(ins), c1...)
+			for i := len(ins) + 1; i <= len(base); i++ {
+				emit(base[:i])
+			}
+			// single modification of every key
+			for k := 0; k < n; k++ {
+				for _, m := range mods(k) {
+					for _, c2 := range cp2 {
+						h := append(append(cp(base), m), c2...)
+						emit(h[:len(base)+1])
+						emit(h)
+					}
+				}
+			}
+		}
+		// cumulative sequences from the dirty trie and from the reopened trie
+		for _, c1 := range [][]byte{nil, kinds(opCommitDisk, opReopen)} {
+			base := append(cp(ins), c1...)
+			for _, seqDesc := range []bool{false, true} {
+				for mi := 0; mi < 2; mi++ {
+					for _, c2 := range cp2 {
+						h := cp(base)
+						for j := 0; j < n; j++ {
+							k := j
+							if seqDesc {
+								k = n - 1 - j
+							}
+							h = append(h, mods(k)[mi])
+							emit(h)
+							for _, o := range c2 {
+								h = append(h, o)
+								emit(h)
+							}
+						}
+					}
+				}
+			}
+		}
+	}
+	return a, rc, hists
+}
+
+func nibbleCoverage(c *fw.Ctx, vr *violRec, ngo int, rcs map[*alphabet]*refCache) (int64, int, bool) {
+	cfgs := nibbleConfigs(c.Thorough())
+	var jobs []nibJob
+	for _, cfg := range cfgs {
+		a, rc, hists := nibbleJobs(cfg)
+		rcs[a] = rc
+		for _, h := range hists {
+			jobs = append(jobs, nibJob{a, rc, h})
+		}
+	}
+	// shortest histories first, one length after the other: a history that extends a
+	// history on which implementation and model already diverged is skipped (it could
+	// only repeat that deviation), exactly like diverged states in the BFS phases
+	sort.SliceStable(jobs, func(i, j int) bool { return len(jobs[i].hist) < len(jobs[j].hist) })
+	var dmu sync.RWMutex
+	diverged := map[*alphabet]map[string]bool{}
+	hasDivergedPrefix := func(j nibJob) bool {
+		dmu.RLock()
+		defer dmu.RUnlock()
+		m := diverged[j.a]
+		if len(m) == 0 {
+			return false
+		}
+		for n := 1; n < len(j.hist); n++ {
+			if m[string(j.hist[:n])] {
+				return true
+			}
+		}
+		return false
+	}
+	var nHist, nNontriv, nViol, nSkipped int64
+	var expired int32
+	for lo := 0; lo < len(jobs) && expired == 0; {
+		hi := lo
+		for hi < len(jobs) && len(jobs[hi].hist) == len(jobs[lo].hist) {
+			hi++
+		}
+		idx := int64(lo) - 1
+		var wg sync.WaitGroup
+		for g := 0; g < ngo; g++ {
+			wg.Add(1)
+			go func() {
+				defer wg.Done()
+				for {
+					i := atomic.AddInt64(&idx, 1)
+					if i >= int64(hi) {
+						return
+					}
+					if !c.Mine(i) {
+						continue
+					}
+					if i%64 == 0 && c.Expired() {
+						atomic.StoreInt32(&expired, 1)
+					}
+					if atomic.LoadInt32(&expired) != 0 {
+						return
+					}
+					j := jobs[i]
+					if hasDivergedPrefix(j) {
+						atomic.AddInt64(&nSkipped, 1)
+						continue
+					}
+					r := execute(j.a, j.rc, j.hist, false)
+					atomic.AddInt64(&nHist, 1)
+					if r.ct.live() >= 2 && r.mask != 0 {
+						atomic.AddInt64(&nNontriv, 1)
+					}
+					if len(r.viols) > 0 {
+						atomic.AddInt64(&nViol, 1)
+						vr.consider(j.a, j.rc, j.hist, r.viols)
+						for _, v := range r.viols {
+							if !strings.HasPrefix(v.Sig, "C02:iter-order") {
+								dmu.Lock()
+								if diverged[j.a] == nil {
+									diverged[j.a] = map[string]bool{}
+								}
+								diverged[j.a][string(j.hist)] = true
+								dmu.Unlock()
+								break
+							}
+						}
+					}
+				}
+			}()
+		}
+		wg.Wait()
+		lo = hi
+	}
+	c.Eval(nHist)
+	c.Trace(nHist)
+	c.NontrivialN(nNontriv)
+	c.Count("violating_histories", nViol)
+	c.Count("diverged_extensions_skipped", nSkipped)
+	c.Count("nibble_coverage_histories", nHist)
+	progress("nibble-coverage: %d universes, %d histories, expired=%v", len(cfgs), nHist, expired != 0)
+	if expired != 0 {
+		c.Cap("time cap in phase nibble-coverage")
+		return nHist, len(cfgs), false
+	}
+	return nHist, len(cfgs), true
 }
 
 // progress appends a line to progress.log in the worker's scratch directory (developer aid).
@@ -1353,6 +1658,8 @@ func main() {
 			"states merged on implementation dump (node graph with kinds/keys/dirty/cached-hash/age, NodeDatabase cache, disk keys) + model; " +
 			"plus overwrite-pair phases: every ordered pair old->new of the relational value alphabet (bases 1/29/31/32/33/40 B, each with strict prefix, strict suffix, last byte changed, " +
 			"first byte changed, trailing 0x00, and empty) on every key (leaf and branch-slot keys) x {others absent, 1 B, 32 B} x {none, hash, commitmem, commitmem x2, commitdisk+reopen, commitdisk x2} between the writes x {none, commitdisk+reopen} after; " +
+			"plus nibble-coverage universes: keys differing exactly in the nibble at branch position 0/1/2/60 (all 16 nibbles and {0,f},{7,8},{e,f},{0,1,f}), 1 B or 40 B values, with/without the key ending at the branch, key tails identical (shared children) or distinct; " +
+			"insert all, checkpoint {none,hash,commitmem x1/x2,commitdisk x1/x2,commitdisk+reopen}, then delete/overwrite every key singly and cumulatively with checkpoints {none,commitmem,commitdisk+reopen}; " +
 			"a history is distinct by construction (shortest history of its source state + one op) and non-trivial when its final trie holds >= 2 keys " +
 			"and the history changed the canonical shape by a branch split, a branch collapse or a short-node merge, or produced an embedded (<32 B) node",
 		Assumptions: []string{
